@@ -5,8 +5,10 @@ let show_ev = function
   | EvUp -> Some "Up" | EvDown -> Some "Down" | EvMsg n -> Some ("Msg:" ^ string_of_int (int_of_nat n))
   | EvWC -> Some "WC" | EvHWM n -> Some ("HWM:" ^ string_of_int (int_of_nat n))
   | EvGiveUp | EvFin | EvErrorLogged -> None   (* log lines / kernel effects: observed through fin= and wire= *)
+let extra_ev = ref []
 let show status evs (c: conn) =
-  let es = List.filter_map show_ev evs in
+  let es = List.filter_map show_ev evs @ !extra_ev in
+  extra_ev := [];
   Printf.printf "%s ev=%s st=%d out=%d:%s in=%d:%s wr=%d rd=%d reg=%d pend=%d wire=%d:%s fin=%d\n" status
     (if es = [] then "-" else String.concat "," es) (st_code c.st)
     (List.length c.outb) (fnv_of_bytes c.outb) (List.length c.inb) (fnv_of_bytes c.inb)
@@ -34,6 +36,10 @@ let () =
     | w ->
         if !dead then (print_string "skipped\n"; flush stdout) else
         let steps = ref [] in
+        (match w with
+         | ["SEND"; d; _; "b"] when !c.st <> Connecting ->
+             extra_ev := ["BufLeft:" ^ string_of_int (if !c.st = Connected then 0 else List.length (bytes_of_spec d))]
+         | _ -> ());
         let r = match w with
           | "RUN" :: ks ->
               (* one RunOne per functor present at batch start; a scripted answer is consumed only
@@ -61,8 +67,8 @@ let () =
           | _ ->
             let o = match w with
               | ["EST"] -> Establish
-              | ["SEND"; d; k] -> Send (bytes_of_spec d, parse_k k)
-              | ["FSC"; t; _] -> FSendCheck (i t)
+              | ["SEND"; d; k] | ["SEND"; d; k; _] -> Send (bytes_of_spec d, parse_k k)
+              | ["FSC"; t; _] | ["FSC"; t; _; _] -> FSendCheck (i t)
               | ["FSE"; t; d] -> FSendEnq (i t, bytes_of_spec d)
               | ["EVW"; k] -> EvWritable (parse_k k)
               | ["RD"; d] -> EvReadData (bytes_of_spec d)
